@@ -598,6 +598,40 @@ func newValueTable(c *Ctx, rule string) {
 		}
 		got[rc.Value] = true
 	}
+	// `arr := make([]*Cell, len(S)); for i := range S { arr[i] = cell }` is the append row: the slice has
+	// one position per element and every position is filled, in the range over S, in every iteration
+	fillRow := regexp.MustCompile(`^lang\.Value\{Tag: ValueArray, Array: make\(\[\]\*lang\.Cell, len\((srcVal\.\(\[\](?:interface\{\}|string)\)#0)\)\), Proto: lang\.getArrayPrototype\(\)\}$`)
+	for row := range got {
+		m := fillRow.FindStringSubmatch(row)
+		if m == nil {
+			continue
+		}
+		S := m[1]
+		filled := false
+		allInstrs(nv, func(in ssa.Instruction) {
+			st, ok := in.(*ssa.Store)
+			if !ok {
+				return
+			}
+			ia, ok := st.Addr.(*ssa.IndexAddr)
+			if !ok {
+				return
+			}
+			mk, ok := ia.X.(*ssa.MakeSlice)
+			if !ok || p.Render(mk.Len) != "len("+S+")" || p.Render(ia.Index) != "i@"+S {
+				return
+			}
+			for _, l := range rangeLoops(nv, func(v ssa.Value) bool { return p.Render(v) == S }) {
+				if l.Body.Dominates(st.Block()) && len(extraGuardsBetween(p, nv, l.Body, st.Block())) == 0 {
+					filled = true
+				}
+			}
+		})
+		if filled {
+			delete(got, row)
+			got["lang.Value{Tag: ValueArray, Array: φslice⟨append(φslice, [&…][:]) | make([]*lang.Cell, 0)⟩, Proto: lang.getArrayPrototype()}"] = true
+		}
+	}
 	miss, extra := diffSets(got, setOf(want))
 	c.check(len(miss)+len(extra) == 0, rule, "value-construction results", p.Pos(nv.Pos()), "the documented arms", fmt.Sprintf("NewValue's results differ from the documented table: unexpected {%s}; missing {%s}", strings.Join(extra, " ; "), strings.Join(miss, " ; ")))
 	// the type cases
